@@ -188,7 +188,7 @@ func init() {
 		Rule: "cases 0..4300: the k-th of ALL 4301 well-formed node lists over <=3 ids and one edge type (every subset of nodes x edge triples x roots, enumerated), " +
 			"taken as receiver through every unary operation with every id argument (all removal subsets, all start ids, depths 1..4) and through Union/Intersect/Add/RelateNodeListAtID against " +
 			"EVERY list of the universe as argument (thorough: all 4301^2 ordered pairs; quick: all 73 lists on <=2 ids plus 48 PRNG-chosen lists on 3 ids per receiver); " +
-			"cases >= L: random programs of <=30 operations over a pool of lists on 12 ids and 3 edge types where results re-enter the pool (half of the programs share structure between pool members, half deep-copy). " +
+			"cases >= L: random programs of <=30 operations over a pool of lists on 12 ids (a quarter of the programs: 20..64 ids with dense hubs, so that merged target lists have tens of entries) and 3 edge types where results re-enter the pool (half of the programs share structure between pool members, half deep-copy). " +
 			"An invariant monitor (well-formed; normalised for merge/removal/extraction) runs on every result. distinct = hash of (operation, canonical operands); non-trivial = operand with >=1 node.",
 		Assumptions: []string{"operands are well-formed (checked before each step); NodeDescendants depth >= 1", "nil results (documented for absent start nodes) are not judged"},
 		NCases: func(tier string) int { return len(c08Lists(tier)) + c08Random(tier) },
@@ -318,6 +318,13 @@ func c08Judge(c *core.C, op, arg string, recv, other, res *sbom.NodeList, normal
 func c08Program(c *core.C) {
 	r := c.R
 	ids := make([]string, 12)
+	pe := 0.02 + 0.2*r.Float64()
+	if c.K%8 == 3 || c.K%8 == 4 {
+		// wide lists: hubs whose edges have tens of targets, so that merged target lists are long
+		ids = make([]string, 20+r.Intn(45))
+		pe = 0.3 + 0.65*r.Float64()
+		c.Cover("program:wide-fan-out")
+	}
 	for i := range ids {
 		ids[i] = fmt.Sprintf("n%d", i)
 	}
@@ -332,7 +339,7 @@ func c08Program(c *core.C) {
 	pool := []*sbom.NodeList{}
 	for i := 0; i < 4; i++ {
 		// half of the initial lists are well-formed but NOT normalised: one stored edge per target, some stated twice
-		nl := gen.RandomNodeList(r, gen.GraphOpts{Universe: ids, EdgeTypes: c08Types, PNode: 0.2 + 0.6*r.Float64(), PEdge: 0.02 + 0.2*r.Float64(), PRoot: 0.3 * r.Float64(), NodeMaker: mk, SplitEdges: i%2 == 1})
+		nl := gen.RandomNodeList(r, gen.GraphOpts{Universe: ids, EdgeTypes: c08Types, PNode: 0.2 + 0.6*r.Float64(), PEdge: pe, PRoot: 0.3 * r.Float64(), NodeMaker: mk, SplitEdges: i%2 == 1})
 		if i%2 == 1 && len(nl.Edges) > 0 {
 			for j := 0; j < 1+r.Intn(3); j++ {
 				nl.Edges = append(nl.Edges, gen.Clone(nl.Edges[r.Intn(len(nl.Edges))]))
